@@ -33,6 +33,13 @@ def configs():
             for octo in ((), ('no_octopus',)):
                 out.append({'layout': layout, 'queue_mode': qm,
                             'cmd_line_options': list(octo)})
+    # a few worlds with a commit-diff limit and integration PRs
+    out.append({'layout': 'd2', 'queue_mode': 'queue',
+                'settings': {'max_commit_diff': 2}})
+    out.append({'layout': 's1d2', 'queue_mode': 'noqueue',
+                'settings': {'max_commit_diff': 3,
+                             'always_create_integration_pull_requests':
+                             True}})
     return out
 
 
@@ -47,7 +54,8 @@ def run_shard(spec, acc):
                gen.OPENERS['dest_moves_while_open'],
                gen.OPENERS['three_queued'], gen.OPENERS['backport'],
                gen.OPENERS['backport'], gen.OPENERS['partial_merge'],
-               gen.OPENERS['admin_branches'], gen.OPENERS['batch_merge']]
+               gen.OPENERS['admin_branches'], gen.OPENERS['batch_merge'],
+               gen.OPENERS['queue_conflict']]
     if spec['tier'] == 'quick':
         n_hist, jobs, cap = 9, 12, 600
     else:
